@@ -23,6 +23,23 @@ CLAIMS = {
  "C13": ("Theorems C13_close_no_panic, C13_display_no_panic, C13_maxSize_no_panic: no strategy panic site, no Display clash, "
          "no capacity overflow on any accepted history.", "4 C13", L_NOTE,
          "Lean 4 theorem (panic-freedom from invariants) + correspondence"),
+ "C12": ("Theorems over the builder state machine for all histories: C12_membership (permutation of prev − removals + additions, "
+         "native and generic strategies), C12_fresh_ids / C12_ids_monotone, C12_unique_names (invariant of every variant and of the "
+         "pending view), C12_reject_unchanged_*, C12_dup_rejected, C12_remove_ok_iff, C12_build_pending, C12_noop_close.", "4 C12", L_NOTE,
+         "Lean 4 theorem (state-machine invariants) + correspondence incl. invalid-request stream"),
+ "C18": ("Theorems C18_records_answer (every accepted addition records exactly the numbers supplied by the resolver/override) and "
+         "C18_shape_preserved (a close changes nothing but offsets); layout decisions in the model read only those numbers. Decisive "
+         "part is the tie: channel L drives typed/uninit/dynamic/override/copy entry points under synthetic resolvers whose answers "
+         "differ from the host's. Table round-trip part not yet modelled (partial).", "4 C18", L_NOTE,
+         "Lean 4 theorem + correspondence under synthetic type tables"),
+ "C19": ("The model is a pure function of the request list (C19_layout_is_function_partial, C19_size_order_stable); the property "
+         "is carried by the tie: implementation = that function on every history, in one process (channel L) and across two "
+         "separately started processes (byte comparison). Partial by nature.", "4 C19", L_NOTE,
+         "Lean 4 model-as-function + two-process byte comparison"),
+ "C20": ("C20_one_entry_per_variant_partial (variant map has one entry per source variant, in order) proved; the rest of the "
+         "statement (paired variants carry the same data, single id correspondence) is checked by channel L `replay` requests "
+         "against the Lean replay model and by an independent oracle on the implementation's output. Full theorem is a goal.", "4 C20", L_NOTE,
+         "Lean 4 theorem (partial) + correspondence"),
 }
 PENDING = "check not built yet (build phase in progress); planned per DESIGN.md section 4"
 
